@@ -99,7 +99,14 @@ function proxyR(R, tr) {
           case 'd': tr.ch(N).d[a[1]] = a[2]; break
           case 'm': tr.ch(N).m[a[1]] = a[2]; break
           case 'r': tr.ch(N).r[a[1]] = a.length > 3 ? [a[2], a[3], a[4]] : [a[2]]; break
-          case 'v': tr.ch(N).v[a[1]] = a.slice(2); break
+          case 'v': {
+            // (args: N, event, value, final, mutated, capture, isDynamic, l-value path, ordinal among equal bindings)
+            const ch = tr.ch(N)
+            ch.v[a[1]] = a.slice(2)
+            if (!ch.vb) ch.vb = {}
+            ch.vb[a[1] + '#' + (a[5] ? 'c' : '') + (a[4] ? 'm' : '') + (a[3] ? 'f' : '') + (a[6] ? 'd' : 's') + (a[8] || '')] = a.slice(2)
+            break
+          }
           case 'p': tr.ch(N).p[a[1]] = a.slice(2); break
           case 'wl': tr.ch(N).wl[a[1]] = a[2]; break
           case 'a': tr.ch(N).a[a[1]] = a[2]; break
@@ -239,6 +246,12 @@ function chanView(c) {
   // (`s` — R.s, the legacy slot setter used by binding-map updaters — is observed through node.slot instead)
   for (const k of ['c', 'y', 'i']) if (k in c) o[k] = c[k]
   for (const k of ['r', 'd', 'm', 'v', 'p', 'wl', 'a', 'l']) if (Object.keys(c[k]).length) o[k] = { ...c[k] }
+  // an event with several bindings on this node: one entry per binding instead of "the last call for that event name"
+  if (c.vb) {
+    const per = {}
+    for (const bk of Object.keys(c.vb)) (per[bk.slice(0, bk.lastIndexOf('#'))] ||= []).push(bk)
+    for (const [name, bks] of Object.entries(per)) if (bks.length > 1) { delete o.v[name]; for (const bk of bks) o.v[bk] = c.vb[bk] }
+  }
   return o
 }
 
